@@ -476,7 +476,36 @@ macro_rules! c01_row {
                             3 => {
                                 ctx.label("view:owned_cursor");
                                 match AnsCoder::<$W, $S, _>::from_compressed(Cursor::new_at_write_end(words.clone())) {
-                                    Ok(d) => drain_check!(d, pending, $plist, "C01/view_owned_cursor"),
+                                    Ok(d) => match words.len() % 3 {
+                                        0 => drain_check!(d, pending, $plist, "C01/view_owned_cursor"),
+                                        1 => {
+                                            // the same data read through the coder reversed in place (cursor not at the end of
+                                            // its buffer: the import has already popped the head words)
+                                            ctx.label("view:owned_cursor_into_reversed");
+                                            drain_check!(d.into_reversed(), pending, $plist, "C01/view_cursor_into_reversed");
+                                        }
+                                        _ => {
+                                            // pop half of the symbols, reverse in place, pop some more, reverse back, pop the rest
+                                            ctx.label("view:owned_cursor_reversed_midway");
+                                            let mut d = d;
+                                            let n = pending.len();
+                                            let (k1, k2) = (n / 2, n / 2 + (n - n / 2) / 2);
+                                            for (depth, e) in pending.iter().rev().enumerate().take(k1) {
+                                                let r = with_prec!(e.tab.sel, $plist, |M| d.decode_symbol(M::new(&e.tab)).ok());
+                                                vcheck!(r == Some(e.sym), "C01/view_cursor_reversed_midway", "before reversing: decoded {:?} instead of {} at depth {}", r, e.sym, depth);
+                                            }
+                                            let mut d = d.into_reversed();
+                                            for (depth, e) in pending.iter().rev().enumerate().skip(k1).take(k2 - k1) {
+                                                let r = with_prec!(e.tab.sel, $plist, |M| d.decode_symbol(M::new(&e.tab)).ok());
+                                                vcheck!(r == Some(e.sym), "C01/view_cursor_reversed_midway", "after into_reversed: decoded {:?} instead of {} at depth {}", r, e.sym, depth);
+                                            }
+                                            let mut d = d.into_reversed();
+                                            for (depth, e) in pending.iter().rev().enumerate().skip(k2) {
+                                                let r = with_prec!(e.tab.sel, $plist, |M| d.decode_symbol(M::new(&e.tab)).ok());
+                                                vcheck!(r == Some(e.sym), "C01/view_cursor_reversed_midway", "after reversing back: decoded {:?} instead of {} at depth {}", r, e.sym, depth);
+                                            }
+                                        }
+                                    },
                                     Err(_) => vfail!("C01/reimport_rejected", "from_compressed(Cursor) rejected {}", hexwords(&words)),
                                 }
                             }
